@@ -167,8 +167,9 @@ class SelectEventLoop(EventLoop):
         """
         Call all the registered idle callbacks.
         """
-        for callback in self._idle_callbacks.values():
-            callback()
+        for handle, callback in list(self._idle_callbacks.items()):
+            if handle in self._idle_callbacks:  # not removed by a previous idle callback
+                callback()
 
     def run(self) -> None:
         """
